@@ -109,7 +109,7 @@ var roots = []rootCfg{
 	{"dot-up", "root/sub", "./.."},
 	{"up-up", "root/sub/deeper", "../.."},
 	{"up-down-up", "root/sub", "../sub/.."},
-	{"up-to-base", "root", ".."},
+	{"up-named-up", "root/sub/deeper", "../../sub/.."},
 }
 
 func decorate(p string, variant int) string {
